@@ -112,7 +112,7 @@ func init() {
 					idx = 0
 				}
 			} else {
-				idx = r.choose('c', n)
+				idx = r.choose('k', n)
 			}
 			r.nondets = append(r.nondets, &NondetInfo{Name: name, Sort: "choice", Lo: "0", Hi: fmt.Sprint(n - 1), term: r.tc.Int64(int64(idx))})
 			return idx
